@@ -10,7 +10,7 @@ CONSTANTS
   MaxQ = 2
   MaxId = 1
   KaVals = {0}
-  EndKinds = {"eof", "short", "trunc", "wfail"}
+  EndKinds = {"eof", "wfail", "stall"}
   MaxOps = 7
   Frames <- GFrames
 SPECIFICATION GenSpec
